@@ -316,6 +316,14 @@ class C19:
         implv, codev, specv = self.glob(pat, name)
         return codev if specv is None else specv
 
+    def match_shape(self, pat, name, default):
+        """Shape of a MATCH-related oracle failure: the listed finding only when the deviation is the modelled one
+        (a byte >= 0x80 is involved and the code model gives the implementation's verdict, not the spec's)."""
+        implv, codev, specv = self.glob(pat, name)
+        if any(c >= 0x80 for c in pat + name) and specv is not None and implv == codev and codev != specv:
+            return "match-non-ascii"
+        return default
+
     # -- one iteration -----------------------------------------------------------
     def apply(self, kind, op, truth):
         if op[0] == "add":
@@ -431,7 +439,7 @@ class C19:
                 if aux is not None and aux != snap[name]:
                     fails.append(("sound", "returned a stale or wrong value/score", {"call": calls - 1, "element": hx(name), "got": aux, "want": snap[name]}))
                 if pat is not None and not self.wants(pat, name):
-                    shape = "match-non-ascii" if any(c >= 0x80 for c in pat + name) else "sound"
+                    shape = self.match_shape(pat, name, "sound")
                     fails.append((shape, "returned an element that does not satisfy MATCH", {"call": calls - 1, "element": hx(name), "pattern": desc["pattern"]}))
             if len(set(n for n, _ in items)) < len(items) or any(n in set(x for bt in returned for x in bt) for n, _ in items):
                 dup = True
@@ -465,7 +473,7 @@ class C19:
                 if pat is not None:
                     implv, codev, specv = self.glob(pat, k)
                     if specv is not None and codev != specv:
-                        fails.append(("match-non-ascii" if any(c >= 0x80 for c in pat + k) else "complete",
+                        fails.append((self.match_shape(pat, k, "complete"),
                                       "an element that satisfies MATCH was never returned (matcher)", {"element": hx(k), "pattern": desc["pattern"]}))
                         continue
                 # was its rank pushed below the cursor by a deletion between two calls?
@@ -571,8 +579,7 @@ class C19:
             cls = "x" if specv is None else ("=" if specv == implv else "dev")
             self.rep.nontrivial(("glob", cls, implv, min(len(p), 6), any(c >= 0x80 for c in p + t), b"[" in p, b"*" in p, b"\\" in p))
             if specv is not None and implv != specv:
-                nonascii = any(c >= 0x80 for c in p + t)
-                shape = "match-non-ascii" if nonascii else ("sound" if implv else "complete")
+                shape = self.match_shape(p, t, "sound" if implv else "complete")
                 desc = {"kind": "keys", "count": 10, "pattern": hx(p), "type": None, "novalues": False, "via_cmd": False,
                         "initial": [[hx(t), "string"]], "steps": []}
                 self.oracle_failures.append((shape, "SCAN MATCH over the single key: implementation %s, glob semantics over bytes %s" % (implv, specv), desc,
@@ -604,12 +611,12 @@ class C19:
     def run(self, seed, tier):
         rep = self.rep
         r = Rng(seed)
-        scale = 10 if tier == "thorough" else 1
+        scale = 12 if tier == "thorough" else 1
         self.corpus()
         ir = r.fork("iterations")
         regimes = ["fixed", "adds", "dels", "both", "both", "both"]
         n = 0
-        for rnd in range(16 * scale):
+        for rnd in range(40 * scale):
             for count in COUNTS:
                 for regime in regimes:
                     desc = gen_desc(ir, count, regime)
@@ -622,8 +629,8 @@ class C19:
         for count in (0, 13, 999, 1001, 10 ** 6, 2 ** 32, 2 ** 64 - 1):
             for _ in range(3 * scale):
                 self.execute(gen_desc(ir, count, "both"))
-        self.globs(r.fork("globs"), 6000 * scale)
-        self.malformed(r.fork("malformed"), 1500 * scale)
+        self.globs(r.fork("globs"), 12000 * scale)
+        self.malformed(r.fork("malformed"), 2500 * scale)
         if tier == "thorough":
             self.exhaustive(4, 3)
             self.exhaustive(3, 4)
